@@ -12,7 +12,7 @@ ASSUMPTIONS = [
     "the hook sequence of a *failed* children assignment (its rollback) is judged by the bracket/observation rules R1/R2 only",
     "calls ending in RecursionError are not judged (the event log may be truncated by the interpreter limit)",
 ]
-GATES = ["mon.C16.automaton", "mon.C16.R3", "mon.C16.R6", "C16.noop_silent", "C16.R5.post_fault_kept", "mon.C16.reentrant_observations", "mon.C16.late_hooks"] + [
+GATES = ["mon.C16.automaton", "mon.C16.wide_node", "mon.C16.R3", "mon.C16.R6", "C16.noop_silent", "C16.R5.post_fault_kept", "mon.C16.reentrant_observations", "mon.C16.late_hooks"] + [
     "C16.ev." + k for k in ("pre_detach", "post_detach", "pre_attach", "post_attach", "pre_detach_children",
                             "post_detach_children", "pre_attach_children", "post_attach_children")]
 MONITORS = ("C16",)
@@ -75,7 +75,15 @@ def run(ctx):
     E.Engine(ctx, MONITORS, faults=True).run()
     if ctx.shard in (0, 1):
         late_hooks(ctx)
+    from . import widenode
+
+    widenode.run(ctx, "C16")
 
 
 def replay(ctx, wit):
+    if wit.get("case", {}).get("wide_node"):
+        from . import widenode
+
+        ctx.case(("replay",))
+        return widenode.run(ctx, "C16")
     E.replay(ctx, wit, MONITORS)
